@@ -57,14 +57,18 @@
    D14 uninitialised `let`      `let v: T;` followed by a read of `v` is well-typed (reading a never-assigned variable
                                 is a run-time notion).  `let v;` and `const c: T;` are errors.  A variable of type
                                 void cannot be declared.
-   D15 scopes                   JavaScript block scoping: a block opens a scope; the clauses of one `switch` share ONE
-                                scope (the case block: a declaration in a clause is visible in the following
-                                clauses) which ends with the switch; a declaration made directly in a branch of an
-                                `if` does not outlive the branch; redeclaration shadows.  Case values are typed in the
-                                scope before the switch.  (The compiler used to deviate — findings F32 and F40: declarations in
-                                unbraced `if` branches and in `case` clauses stayed visible until the end of the
-                                ENCLOSING block, so a variable whose declaration was never executed could be read;
-                                repaired by a011e08 and 2a702d4, and proved for the model:
+   D15 scopes                   block scoping: a block opens a scope; EVERY CLAUSE of a `switch` is a scope of its own
+                                that starts from the scope before the switch (a declaration in a clause is visible
+                                neither after the switch nor in the following clauses: a clause can be entered by a
+                                jump from the head, when the initialisers of the preceding clauses have not run —
+                                JavaScript would raise a ReferenceError there at run time, the static discipline
+                                rejects the reference); a declaration made directly in a branch of an `if` does not
+                                outlive the branch; redeclaration shadows.  Case values are typed in the scope before
+                                the switch.  (The compiler used to deviate — findings F32, F40 and F100: declarations
+                                in unbraced `if` branches and in `case` clauses stayed visible until the end of the
+                                ENCLOSING block, and after 2a702d4 still in the FOLLOWING clauses, so a variable
+                                whose declaration was never executed could be read; repaired by a011e08, 2a702d4
+                                and 0aff63c, and proved for the model:
                                 Props.C05.declared_in_block_branch_or_clause_not_visible_after.)
    D16 result of a binding      the result types are those of all `return` statements (reachable or not; `return;`
                                 is void) and of the expression statements in tail position.  They must have ONE
@@ -753,7 +757,9 @@ def checkStmts (w : World) (inSwitch : Bool) (last prev : Bool) (sc : Scope) : L
       | .error x => .error x
       | .ok o' => .ok { o' with returns := o.returns ++ o'.returns }
 
-/-- `sc0`: the scope the case values are evaluated in (D19); `sc`: the scope shared by the bodies (D15) -/
+/-- `sc0`: the scope the case values are evaluated in (D19); `sc`: the scope every clause body starts in (D15:
+    a clause's declarations are visible neither after the switch nor in the following clauses — a clause can be
+    entered by a jump from the head, when the initialisers of the preceding clauses have not run) -/
 def checkClauses (w : World) (vt : Ty) (sc0 sc : Scope) : List (Option Expr × List Stmt) → Except Err Out
   | [] => .ok { scope := sc }
   | (cv, body) :: rest =>
@@ -770,7 +776,7 @@ def checkClauses (w : World) (vt : Ty) (sc0 sc : Scope) : List (Option Expr × L
       match checkStmts w true false true sc body with
       | .error x => .error x
       | .ok o =>
-        match checkClauses w vt sc0 o.scope rest with
+        match checkClauses w vt sc0 sc rest with
         | .error x => .error x
         | .ok o' => .ok { o' with returns := o.returns ++ o'.returns }
 
